@@ -469,3 +469,78 @@ Definition check_c08 (d : doc) (pd : pdoc) (inherited : list bool) : nat :=
         end
     | _ => 0
     end.
+
+(* ---- C09: the direct binding rule ---- *)
+(* the cell the body attributes specify for original position (r, oc), rendered as displayed column j of ncols *)
+Definition expected_cell (ctx : option (list str)) (a : attrs) (v : val) (r oc : nat) (is_last : bool) (x : Z)
+  : res cell :=
+  do t <- mk_tcontent a (display v) r oc;
+  do pf <- para_fmt t;
+  do rn <- text_run ctx t;
+  do bl <- mk_border ctx (a_bl a) (a_bcl a) (a_bw a) r oc;
+  do bt <- mk_border ctx (a_bt a) (a_bct a) (a_bw a) r oc;
+  do bb <- mk_border ctx (a_bb a) (a_bcb a) (a_bw a) r oc;
+  do br <- (if is_last then do b <- mk_border ctx (a_br a) (a_bcr a) (a_bw a) r oc; Ok (Some b) else Ok None);
+  do vjn <- getreq (a_cvj a) r oc;
+  do vj <- of_opt (code_tokens vert_codes vjn) OtherErr;
+  Ok {| ce_bl := Some bl; ce_bt := Some bt; ce_br := br; ce_bb := Some bb; ce_vj := vj; ce_x := x;
+        ce_pf := pf; ce_run := rn |}.
+
+Definition kept_indices (f : frame) (b : body) : list nat :=
+  let rem := removed_indices f b in
+  filter (fun i => negb (existsb (Nat.eqb i) rem)) (seq 0 (length (f_cols f))).
+
+(* compare everything but the top / bottom border when the row is first / last on its page *)
+Definition cell_matches (skip_top skip_bottom : bool) (have want : cell) : bool :=
+  opt_eqb bord_eqb (ce_bl have) (ce_bl want)
+  && (skip_top || opt_eqb bord_eqb (ce_bt have) (ce_bt want))
+  && opt_eqb bord_eqb (ce_br have) (ce_br want)
+  && (skip_bottom || opt_eqb bord_eqb (ce_bb have) (ce_bb want))
+  && tok_list_eqb (ce_vj have) (ce_vj want) && Z.eqb (ce_x have) (ce_x want)
+  && tok_list_eqb (ce_pf have) (ce_pf want) && run_eqb (ce_run have) (ce_run want).
+
+Fixpoint c09_cells (ctx : option (list str)) (a : attrs) (row : list val) (r : nat) (kept : list nat)
+         (cells : list cell) (ncols : nat) (j : nat) (st sb : bool) : bool :=
+  match kept, cells with
+  | [], [] => true
+  | oc :: kept', c :: cells' =>
+    match expected_cell ctx a (nth oc row VNull) r oc (Nat.eqb (S j) ncols) (ce_x c) with
+    | Ok want => cell_matches st sb c want && c09_cells ctx a row r kept' cells' ncols (S j) st sb
+    | Err _ => false
+    end
+  | _, _ => false
+  end.
+
+Definition c09_row_level (a : attrs) (r first_oc : nat) (rw : row) : bool :=
+  match getreq (a_cj a) r first_oc, getreq (a_ch a) r first_oc with
+  | Ok jn, Ok h =>
+    match code_tokens row_just_codes jn with
+    | Some j => tok_list_eqb (rw_just rw) j && Z.eqb (rw_gaph rw) (Z.div (twip h) 2)
+    | None => false
+    end
+  | _, _ => false
+  end.
+
+Fixpoint c09_page (ctx : option (list str)) (f : frame) (b : body) (kept : list nat) (obs : list (nat * row))
+         (first : bool) : bool :=
+  match obs with
+  | [] => true
+  | (t, rw) :: rest =>
+    let last := match rest with [] => true | _ => false end in
+    let row := nth t (f_rows f) [] in
+    c09_cells ctx (b_attrs b) row t kept (rw_cells rw) (length kept) 0 first last
+    && c09_row_level (b_attrs b) t (hd 0 kept) rw
+    && c09_page ctx f b kept rest false
+  end.
+
+(* clause ids: 1 tags; 2 a data cell does not carry what the attributes specify for its original position *)
+Definition check_c09 (d : doc) (pd : pdoc) : nat :=
+  match d_content d with
+  | CSingle f b =>
+    let tags := page_tags pd in
+    if negb (nat_list_eqb (concat tags) (seq 0 (length (f_rows f)))) then 1
+    else if all_b (fun p => c09_page (Some (collect_colors d)) f b (kept_indices f b) (data_rows p) true)
+                  (observed_pages pd)
+         then 0 else 2
+  | _ => 0
+  end.
